@@ -359,9 +359,53 @@ def _ends_flow(stmts):
         if last.finalbody and _ends_flow(last.finalbody):
             return True
         return _ends_flow(last.orelse if last.orelse else last.body) and all(_ends_flow(h.body) for h in last.handlers)
-    if isinstance(last, ast.With):
-        return False
+    if isinstance(last, ast.While) and isinstance(last.test, ast.Constant) and last.test.value is True and not last.orelse:
+        # `while True:` without a break of its own is left only by return / raise / an inlined helper's own jump
+        def has_break(ss):
+            for s_ in ss:
+                if isinstance(s_, ast.Break):
+                    return True
+                if isinstance(s_, (ast.For, ast.While, ast.FunctionDef, ast.AsyncFunctionDef, ast.ClassDef)):
+                    if has_break(getattr(s_, "orelse", []) or []):
+                        return True
+                    continue
+                for owner, f in _child_lists(s_):
+                    if has_break(getattr(owner, f)):
+                        return True
+            return False
+        return not has_break(last.body)
     return False
+
+
+def _simplify_const_bool(t):
+    """`True and X` -> X, `False and X` -> False, `False or X` -> X, `True or X` -> True (boolean constants only, as left by constant substitution)"""
+    if isinstance(t, ast.BoolOp):
+        vals = [_simplify_const_bool(v) for v in t.values]
+        is_and = isinstance(t.op, ast.And)
+        keep = []
+        for i_, v in enumerate(vals):
+            if isinstance(v, ast.Constant) and isinstance(v.value, bool):
+                if v.value is (not is_and):
+                    # decides the whole expression once reached: later operands are not evaluated
+                    keep.append(v)
+                    break
+                if i_ < len(vals) - 1 or keep:
+                    continue        # neutral element (its value only matters as the last operand of an otherwise empty chain)
+            keep.append(v)
+        if not keep:
+            return ast.copy_location(ast.Constant(value=is_and), t)
+        if len(keep) == 1:
+            return keep[0]
+        if isinstance(keep[-1], ast.Constant) and isinstance(keep[-1].value, bool) and keep[-1].value is (not is_and) and len(keep) > 1:
+            # `X and False`: X is still evaluated; value is X's falsy value or False: not a plain constant -> leave
+            pass
+        return ast.copy_location(ast.BoolOp(op=t.op, values=keep), t)
+    if isinstance(t, ast.UnaryOp) and isinstance(t.op, ast.Not):
+        v = _simplify_const_bool(t.operand)
+        if isinstance(v, ast.Constant) and isinstance(v.value, bool):
+            return ast.copy_location(ast.Constant(value=not v.value), t)
+        return ast.copy_location(ast.UnaryOp(op=ast.Not(), operand=v), t)
+    return t
 
 
 def _prune_const_ifs(stmts):
@@ -371,6 +415,7 @@ def _prune_const_ifs(stmts):
         if isinstance(st, ast.If):
             st.body = _prune_const_ifs(st.body)
             st.orelse = _prune_const_ifs(st.orelse)
+            st.test = _simplify_const_bool(st.test)
             if isinstance(st.test, ast.Constant) and isinstance(st.test.value, bool):
                 out += st.body if st.test.value else st.orelse
             else:
@@ -552,6 +597,14 @@ def _flatten_blocks(stmts):
             st.body = _flatten_blocks(st.body)
             st.epilogue = _flatten_blocks(st.epilogue)
             _thread_boolean_result(st)
+            # `if C: <leaves> else: B` at the end of the helper body is `if C: <leaves>` followed by B (the form before return sinking),
+            # which brings a final `<ret> = E; jump` back to the tail
+            while st.body and isinstance(st.body[-1], ast.If) and st.body[-1].orelse and _ends_flow(st.body[-1].body) \
+                    and _own_jumps(st.body[-1].body) == 0 and _own_jumps(st.body[-1].orelse) >= 1:
+                iff_ = st.body[-1]
+                tail_ = iff_.orelse
+                iff_.orelse = []
+                st.body = st.body + tail_
             nj = _own_jumps(st.body)
             body = list(st.body)
             tail_jump = bool(body) and isinstance(body[-1], InlineJump)
@@ -755,6 +808,112 @@ def _merge_dict_stores(fdef):
                 continue
             i += 1
     go(fdef.body)
+
+
+def _eliminate_aliases(fdef, log=None):
+    """N27: `x = y` between two plain locals, where this is the only binding of x, every binding of y comes before it and x is not read
+    before it: y is x under another name (a hoisted temporary, the result variable of an inlined helper).  y is renamed to x and the
+    copy disappears; nothing is evaluated differently."""
+    params = {a.arg for a in ast.walk(fdef.args) if isinstance(a, ast.arg)}
+    changed = True
+    rounds = 0
+    while changed and rounds < 20:
+        changed = False
+        rounds += 1
+        stmts_order = []          # simple statements / compound heads in program order
+        stores, loads, banned = {}, {}, set()
+
+        def head_nodes(st):
+            if isinstance(st, (ast.If, ast.While)):
+                return [st.test]
+            if isinstance(st, (ast.For, ast.AsyncFor)):
+                return [st.target, st.iter]
+            if isinstance(st, (ast.With, ast.AsyncWith)):
+                return [x for it in st.items for x in (it.context_expr, it.optional_vars) if x is not None]
+            if isinstance(st, ast.Match):
+                return [st.subject]
+            return []
+
+        def note(expr, idx):
+            for n in ast.walk(expr):
+                if isinstance(n, ast.Name):
+                    (stores if isinstance(n.ctx, (ast.Store, ast.Del)) else loads).setdefault(n.id, []).append(idx)
+                    if isinstance(n.ctx, ast.Del):
+                        banned.add(n.id)
+                elif isinstance(n, ast.Lambda):
+                    for m in ast.walk(n.args):
+                        if isinstance(m, ast.arg):
+                            banned.add(m.arg)
+                elif isinstance(n, (ast.ListComp, ast.SetComp, ast.DictComp, ast.GeneratorExp)):
+                    for g_ in n.generators:
+                        for m in ast.walk(g_.target):
+                            if isinstance(m, ast.Name):
+                                banned.add(m.id)
+                elif isinstance(n, ast.NamedExpr) and isinstance(n.target, ast.Name):
+                    banned.add(n.target.id)
+
+        def go(ss):
+            for st in ss:
+                idx = len(stmts_order)
+                stmts_order.append(st)
+                if isinstance(st, (ast.FunctionDef, ast.AsyncFunctionDef, ast.ClassDef)):
+                    for m in ast.walk(st):
+                        if isinstance(m, ast.Name):
+                            banned.add(m.id)
+                        elif isinstance(m, ast.arg):
+                            banned.add(m.arg)
+                    banned.add(st.name)
+                    continue
+                if isinstance(st, (ast.Global, ast.Nonlocal)):
+                    banned.update(st.names)
+                    continue
+                subs = [(st, "prologue"), (st, "body"), (st, "epilogue")] if isinstance(st, InlineBlock) else _child_lists(st)
+                if subs:
+                    for h in head_nodes(st):
+                        note(h, idx)
+                    for hd in getattr(st, "handlers", []) or []:
+                        if hd.name:
+                            stores.setdefault(hd.name, []).append(idx)
+                            banned.add(hd.name)
+                        if hd.type is not None:
+                            note(hd.type, idx)
+                    if isinstance(st, ast.Match):
+                        for m in ast.walk(st):
+                            if isinstance(m, ast.Name):
+                                banned.add(m.id)
+                    for owner, f in subs:
+                        go(getattr(owner, f))
+                else:
+                    note(st, idx)
+        go(fdef.body)
+        for idx, st in enumerate(stmts_order):
+            if not (isinstance(st, ast.Assign) and len(st.targets) == 1 and isinstance(st.targets[0], ast.Name) and isinstance(st.value, ast.Name)):
+                continue
+            x, y = st.targets[0].id, st.value.id
+            if x == y or x in params or y in params or x in banned or y in banned or y not in stores:
+                continue
+            if stores.get(x) != [idx] or any(i >= idx for i in stores[y]) or any(i <= idx for i in loads.get(x, [])):
+                continue
+            # the copy must not be conditional with respect to the bindings of y... (a binding of y on a path that skips the copy leaves
+            # x unbound there in the original too; reading it would be an error, so nothing observable differs)
+            _Rename({y: x}).visit(fdef)
+            # the copy is now `x = x`
+            def drop(ss):
+                for i_, s_ in enumerate(ss):
+                    if s_ is st:
+                        del ss[i_]
+                        if not ss:
+                            ss.append(ast.copy_location(ast.Pass(), st))
+                        return True
+                    for owner, f in ([(s_, "prologue"), (s_, "body"), (s_, "epilogue")] if isinstance(s_, InlineBlock) else _child_lists(s_)):
+                        if drop(getattr(owner, f)):
+                            return True
+                return False
+            drop(fdef.body)
+            if log is not None:
+                log.append((y, x, getattr(st, "lineno", 0)))
+            changed = True
+            break
 
 
 def _is_boolish(e):
@@ -1110,6 +1269,10 @@ class Normalizer:
         self._comp_displays(fdef, modname, cname, state)
         _merge_dict_stores(fdef)
         fdef.body = _drop_dead_defs(fdef, _flatten_blocks(self._stmts(fdef.body, modname, cname, stack, state)))
+        al_ = []
+        _eliminate_aliases(fdef, al_)
+        for y_, x_, ln_ in al_:
+            self.lowered.append((stack[0], ln_, f"alias {y_}->{x_}"))
 
     def _stmts(self, stmts, modname, cname, stack, state):
         stmts = self._sink_tail(stmts)
